@@ -23,8 +23,8 @@ EXPLANATION = (
     "query_by_feature_interval_guids / query_by_feature_identifiers are interpreted by the analyser and compared with a "
     "coordinate oracle: exact membership after the coding filter, documented bounds, members' dictionary forms and "
     "identifiers retained, member sequences restricted to the new bounds, InvalidQueryError for invalid ranges. R7: "
-    "interface completeness of the child union. Not decided: cgranges path (not installed; the analyser follows the "
-    "pure-Python path and cross-checks the bin pre-filter against the unfiltered predicate in C16)."
+    "interface completeness of the child union. RX: the optional interval-index implementation (cgranges is not installed) is followed through a native model of "
+    "the index. Not decided: the real cgranges library."
 )
 
 AC = "gene.collections:AnnotationCollection"
